@@ -206,3 +206,29 @@ Proof.
     + constructor; [|assumption]. intro Hi. apply Hn. apply in_or_app; now left.
     + intros x Hx [->|Hi]; [apply Hn; apply in_or_app; now right | exact (H3 x Hx Hi)].
 Qed.
+
+(** ** counting occurrences (multiset reasoning by arithmetic) *)
+Definition cnt (x : rec) (l : list rec) : nat := count_occ rec_eq_dec l x.
+Lemma cnt_app x l m : cnt x (l ++ m) = cnt x l + cnt x m.
+Proof. apply count_occ_app. Qed.
+Lemma cnt_nil x : cnt x [] = 0.
+Proof. reflexivity. Qed.
+Lemma cnt_split x n l : cnt x l = cnt x (firstn n l) + cnt x (skipn n l).
+Proof. rewrite <- cnt_app. now rewrite firstn_skipn. Qed.
+Lemma cnt_In x l : In x l <-> 1 <= cnt x l.
+Proof. unfold cnt. rewrite (count_occ_In rec_eq_dec). lia. Qed.
+Lemma cnt_notin x l : ~ In x l <-> cnt x l = 0.
+Proof. unfold cnt. apply count_occ_not_In. Qed.
+Lemma NoDup_cnt l : NoDup l <-> forall x, cnt x l <= 1.
+Proof. apply NoDup_count_occ. Qed.
+Lemma cnt_single x r : cnt x [r] = if rec_eq_dec r x then 1 else 0.
+Proof. unfold cnt. cbn. destruct (rec_eq_dec r x); reflexivity. Qed.
+
+Lemma NoDup_app_parts_rev {A} (l m : list A) :
+  NoDup l -> NoDup m -> (forall x, In x m -> ~ In x l) -> NoDup (l ++ m).
+Proof.
+  induction l as [|a l IH]; cbn; intros Hl Hm Hd; [assumption|].
+  inversion Hl; subst. constructor.
+  - intro Hi. apply in_app_or in Hi as [Hi|Hi]; [contradiction|]. apply (Hd a Hi). now left.
+  - apply IH; auto. intros x Hx Hi. apply (Hd x Hx). now right.
+Qed.
